@@ -5,6 +5,9 @@ import (
 	"encoding/base64"
 	"encoding/json"
 	"fmt"
+	"io"
+	"net/http"
+	"net/http/httptest"
 	"net/url"
 	"strings"
 	"time"
@@ -13,6 +16,7 @@ import (
 	"github.com/nuts-foundation/go-did/vc"
 	"github.com/nuts-foundation/nuts-node/vcr/holder"
 	"github.com/nuts-foundation/nuts-node/vcr/signature/proof"
+	"verifsim/seams"
 )
 
 // Web-node workload helpers: the same internal REST calls an operator's application makes
@@ -221,4 +225,73 @@ func (n *Node) SignJWTLike(token string, kid string, edit func(claims map[string
 		return "", fmt.Errorf("sign_jwt: %d %s", code, body)
 	}
 	return strings.Trim(strings.TrimSpace(string(body)), "\""), nil
+}
+
+// Hop is one request of a simulated browser.
+type Hop struct {
+	URL      string
+	Status   int
+	Location string
+	Body     []byte
+}
+
+// Browse plays the user's browser: GET start, follow redirects (one cookie jar per host) to
+// whichever node serves the host, until there is no redirect, the host is not a node, or maxHops.
+func (w *World) Browse(start string, jar map[string][]*http.Cookie, maxHops int) []Hop {
+	var hops []Hop
+	next := start
+	for i := 0; i < maxHops && next != ""; i++ {
+		u, err := url.Parse(next)
+		if err != nil {
+			break
+		}
+		n := w.Nodes[strings.TrimSuffix(u.Hostname(), ".sim")]
+		if n == nil || n.Echo == nil {
+			hops = append(hops, Hop{URL: next, Status: 0})
+			break
+		}
+		req := httptest.NewRequest("GET", next, nil)
+		req.Host = u.Host
+		for _, c := range jar[u.Host] {
+			req.AddCookie(c)
+		}
+		resp := n.Serve(req)
+		body, _ := io.ReadAll(resp.Body)
+		resp.Body.Close()
+		if cs := resp.Cookies(); len(cs) > 0 {
+			jar[u.Host] = append(jar[u.Host], cs...)
+		}
+		h := Hop{URL: next, Status: resp.StatusCode, Location: resp.Header.Get("Location"), Body: body}
+		hops = append(hops, h)
+		next = ""
+		if resp.StatusCode >= 300 && resp.StatusCode < 400 && h.Location != "" {
+			if loc, err := u.Parse(h.Location); err == nil {
+				next = loc.String()
+			}
+		}
+	}
+	return hops
+}
+
+// Redeliver sends a recorded request (method, URL, headers, body) to the node that serves its host.
+func (w *World) Redeliver(rec seams.HTTPRecord) (int, []byte) {
+	u, err := url.Parse(rec.URL)
+	if err != nil {
+		return 0, nil
+	}
+	n := w.Nodes[strings.TrimSuffix(u.Hostname(), ".sim")]
+	if n == nil {
+		return 0, nil
+	}
+	req := httptest.NewRequest(rec.Method, rec.URL, bytes.NewReader(rec.ReqBody))
+	req.Host = u.Host
+	for _, line := range strings.Split(rec.ReqHeader, "\r\n") {
+		if i := strings.Index(line, ": "); i > 0 {
+			req.Header.Set(line[:i], line[i+2:])
+		}
+	}
+	resp := n.Serve(req)
+	body, _ := io.ReadAll(resp.Body)
+	resp.Body.Close()
+	return resp.StatusCode, body
 }
